@@ -255,10 +255,21 @@ func pathCfg(w *WorldDesc, rpc *spec.RPC) string {
 
 // wireShape is the request line as the property compares it: verb, decoded path
 // segments, set of query parameter names.
-func wireShape(wr WireReq) string {
+func wireShape(wr WireReq, tmpl string) string {
 	u, err := url.ParseRequestURI(wr.Target)
 	if err != nil {
 		return wr.Verb + " <unparsable " + wr.Target + ">"
+	}
+	// path variables carry values whose decimal spelling may legitimately differ between
+	// languages (1e+06 vs 1000000): compare the template positions, not the values
+	ts, ps := strings.Split(tmpl, "/"), strings.Split(u.Path, "/")
+	if len(ts) == len(ps) {
+		for i := range ts {
+			if strings.HasPrefix(ts[i], "{") && strings.HasSuffix(ts[i], "}") && ps[i] != "" {
+				ps[i] = "{}"
+			}
+		}
+		u.Path = strings.Join(ps, "/")
 	}
 	var names []string
 	for n := range u.Query() {
@@ -377,7 +388,7 @@ func (propC03) Check(k *Kernel, cov *Coverage) *Violation {
 			return &Violation{Class: "call-hung", Signature: "C03|call-hung|" + pair, Detail: fmt.Sprintf("op %d never returned", c.Op.ID)}
 		}
 		if len(c.Wire) > 0 {
-			s := wireShape(c.Wire[0])
+			s := wireShape(c.Wire[0], op.Path)
 			if prev, ok := shapes[ck]; ok && prev != s {
 				return &Violation{Class: "client-inconsistent", Signature: "C03|client-inconsistent|" + ck, Detail: prev + " vs " + s}
 			}
@@ -408,7 +419,11 @@ func (propC03) Check(k *Kernel, cov *Coverage) *Violation {
 			} else if st == 400 && rpc.HasBody && requiredQueryPresent(rpc, want) {
 				kind = "required-query-on-body-verb"
 			}
-			return &Violation{Class: "matrix-delivery", Signature: "C03|matrix|" + pair + "|" + kind + "|" + cfg,
+			sg := "C03|matrix|" + pair + "|" + kind
+			if kind == "not-routed" || kind == "not-delivered" {
+				sg += "|" + cfg
+			}
+			return &Violation{Class: "matrix-delivery", Signature: sg,
 				Detail: fmt.Sprintf("RPC %s via %s: wire %q, status %d, err=%v, handler saw %s, want %s", rpc.Key, pair, wire, st, c.Err, seenAll(c), jsonOf(want))}
 		}
 		cov.Tuple(k.W.Name, c.Op.RPC, pair, cfg, "delivered")
